@@ -138,6 +138,24 @@ pub struct BinOpts {
     pub cwd: Option<PathBuf>,
     pub timeout_s: u64,
     pub clear_env: bool,
+    /// where the child's stdout / stderr go instead of being captured: 1 = /dev/full (every write
+    /// fails with ENOSPC), 2 = a pipe whose reading end is closed (EPIPE / SIGPIPE)
+    pub stdout_sink: u8,
+    pub stderr_sink: u8,
+}
+
+fn sink(kind: u8) -> std::fs::File {
+    if kind == 1 {
+        return std::fs::OpenOptions::new().write(true).open("/dev/full").unwrap_or_else(|e| inconclusive(&format!("/dev/full: {e}")));
+    }
+    let mut fds = [0i32; 2];
+    if unsafe { libc::pipe(fds.as_mut_ptr()) } != 0 {
+        inconclusive("pipe failed");
+    }
+    unsafe {
+        libc::close(fds[0]);
+        std::fs::File::from_raw_fd(fds[1])
+    }
 }
 
 impl Ctx {
@@ -328,8 +346,8 @@ impl Ctx {
             cmd.env(k, v);
         }
         cmd.current_dir(opts.cwd.clone().unwrap_or_else(|| self.root.clone()));
-        cmd.stdout(Stdio::from(out_f.try_clone().unwrap()));
-        cmd.stderr(Stdio::from(err_f.try_clone().unwrap()));
+        cmd.stdout(if opts.stdout_sink != 0 { Stdio::from(sink(opts.stdout_sink)) } else { Stdio::from(out_f.try_clone().unwrap()) });
+        cmd.stderr(if opts.stderr_sink != 0 { Stdio::from(sink(opts.stderr_sink)) } else { Stdio::from(err_f.try_clone().unwrap()) });
         let stdin_f = opts.stdin.as_ref().map(|data| {
             let mut f = memfd("in");
             f.write_all(data).unwrap();
